@@ -269,6 +269,147 @@ theorem pod_values_of_sums (cfg : Cfg) (cs : List Ctr) (hcfs : cfg.cfs = true) (
     simp [hcfs, hr, hany1, h0]
   · unfold podMem; rw [sumOrUnlimited_eq]; simp [hany2]
 
+/-! ### 3b. the pod value equals the sum of the container values up to rounding and the minimum clamps -/
+
+def effReq (c : Ctr) : Int := if c.req > 0 then c.req else 0
+
+theorem sumPos_eq_effReq (cs : List Ctr) : sumPos (cs.map (·.req)) = (cs.map effReq).sum := by
+  induction cs with
+  | nil => simp [sumPos]
+  | cons c cs ih =>
+    simp only [List.map_cons, sumPos, List.sum_cons, ih, effReq]
+    by_cases h : c.req ≤ 0
+    · have : ¬ c.req > 0 := by omega
+      simp [h, this]
+    · have : c.req > 0 := by omega
+      simp [h, this]
+
+/-- the unclamped conversion `⌊1024·m/1000⌋` is super-additive and loses less than one share per summand. -/
+theorem raw_shares_sum (xs : List Int) (h : ∀ x ∈ xs, 0 ≤ x) :
+    0 ≤ xs.sum ∧ (xs.map (fun m => m * 1024 / 1000)).sum ≤ xs.sum * 1024 / 1000 ∧
+    xs.sum * 1024 / 1000 ≤ (xs.map (fun m => m * 1024 / 1000)).sum + xs.length := by
+  induction xs with
+  | nil => simp
+  | cons x xs ih =>
+    have hx := h x (by simp)
+    obtain ⟨h0, h1, h2⟩ := ih (fun y hy => h y (by simp [hy]))
+    simp only [List.map_cons, List.sum_cons, List.length_cons]
+    refine ⟨by omega, ?_, ?_⟩
+    · omega
+    · have : ((xs.length + 1 : Nat) : Int) = (xs.length : Int) + 1 := by simp
+      rw [this]; omega
+
+theorem ctrShares_bounds (c : Ctr) :
+    effReq c * 1024 / 1000 ≤ ctrShares stdConsts c + 0 ∨ ctrShares stdConsts c = 262144 := by
+  unfold ctrShares effReq
+  rw [std_shares]
+  by_cases h : c.req > 0
+  · have h' : ¬ c.req ≤ 0 := by omega
+    simp only [h, if_true, h', if_false]; omega
+  · simp only [h, if_false]; left; omega
+
+/-- pod shares against the sum of the container shares (n = number of containers, n ≥ 1):
+    never more than the sum plus one share per container (rounding), and — unless the pod hits the
+    maximum clamp — never less than the sum minus two shares per container (minimum clamp). -/
+theorem pod_shares_eq_sum_up_to_clamp (cs : List Ctr) (hne : cs ≠ []) :
+    podShares stdConsts cs ≤ (cs.map (ctrShares stdConsts)).sum + cs.length ∧
+    (podShares stdConsts cs = 262144 ∨ (cs.map (ctrShares stdConsts)).sum ≤ podShares stdConsts cs + 2 * cs.length) := by
+  unfold podShares
+  rw [sumPos_eq_effReq, std_shares]
+  have hnn : ∀ x ∈ cs.map effReq, 0 ≤ x := by
+    intro x hx; obtain ⟨c, _, rfl⟩ := List.mem_map.mp hx; unfold effReq; split <;> omega
+  obtain ⟨h0, h1, h2⟩ := raw_shares_sum (cs.map effReq) hnn
+  rw [List.map_map] at h1 h2
+  simp only [List.length_map] at h2
+  -- per container: raw ≤ ctr ≤ raw + 2 unless clamped at the maximum
+  have hper : (cs.map ((fun m => m * 1024 / 1000) ∘ effReq)).sum ≤ (cs.map (ctrShares stdConsts)).sum ∨
+      ∃ c ∈ cs, ctrShares stdConsts c = 262144 := by
+    clear h1 h2 h0 hnn hne
+    induction cs with
+    | nil => left; simp
+    | cons c cs ih =>
+      rcases ctrShares_bounds c with hc | hc
+      · rcases ih with hi | ⟨d, hd, hd2⟩
+        · left; simp only [List.map_cons, List.sum_cons, Function.comp] at hi ⊢; omega
+        · right; exact ⟨d, by simp [hd], hd2⟩
+      · right; exact ⟨c, by simp, hc⟩
+  have hup : ∀ c : Ctr, ctrShares stdConsts c ≤ effReq c * 1024 / 1000 + 2 ∧ 2 ≤ ctrShares stdConsts c := by
+    intro c
+    unfold ctrShares effReq; rw [std_shares]
+    by_cases h : c.req > 0
+    · have h' : ¬ c.req ≤ 0 := by omega
+      simp only [h, if_true, h', if_false]; omega
+    · simp only [h, if_false]; simp
+  have hsum_up : (cs.map (ctrShares stdConsts)).sum ≤ (cs.map ((fun m => m * 1024 / 1000) ∘ effReq)).sum + 2 * cs.length ∧
+      2 * (cs.length : Int) ≤ (cs.map (ctrShares stdConsts)).sum := by
+    clear h1 h2 h0 hnn hne hper
+    induction cs with
+    | nil => simp
+    | cons c cs ih =>
+      have := hup c
+      simp only [List.map_cons, List.sum_cons, List.length_cons, Function.comp] at *
+      have hl : ((cs.length + 1 : Nat) : Int) = (cs.length : Int) + 1 := by simp
+      rw [hl]; omega
+  have hlen : 1 ≤ (cs.length : Int) := by
+    have : 0 < cs.length := List.length_pos_iff.mpr hne
+    omega
+  constructor
+  · rcases hper with hp | ⟨c, hc, hc2⟩
+    · split <;> omega
+    · -- some container is clamped at the maximum, so the sum is already ≥ 262144 ≥ pod shares
+      have hge : 262144 ≤ (cs.map (ctrShares stdConsts)).sum := by
+        clear h1 h2 h0 hnn hne hsum_up hlen
+        induction cs with
+        | nil => cases hc
+        | cons d ds ih =>
+          simp only [List.map_cons, List.sum_cons]
+          have h2d := (hup d).2
+          have hds : 0 ≤ (ds.map (ctrShares stdConsts)).sum := by
+            clear ih hc
+            induction ds with
+            | nil => simp
+            | cons e es ih2 => have := (hup e).2; simp only [List.map_cons, List.sum_cons]; omega
+          rcases List.mem_cons.mp hc with rfl | hc'
+          · omega
+          · have := ih hc'; omega
+      split <;> omega
+  · by_cases hmax : (cs.map effReq).sum * 1024 / 1000 ≥ 262144
+    · left; split <;> omega
+    · right; split <;> omega
+
+/-- quota: the pod quota never exceeds the sum of the container quotas and is at most one minimum quota
+    per container below it (all containers limited, CFS quota on, no normalisation ratio). -/
+theorem pod_quota_eq_sum_up_to_clamp (cfg : Cfg) (cs : List Ctr) (hcfs : cfg.cfs = true) (hr : cfg.ratioGt1 = false)
+    (hl : ∀ c ∈ cs, 0 < c.lim) (hm : ∀ c ∈ cs, 0 < c.mem) (hne : cs ≠ []) :
+    podQuota stdConsts cfg cs ≤ (cs.map (ctrQuota stdConsts cfg)).sum ∧
+    (cs.map (ctrQuota stdConsts cfg)).sum ≤ podQuota stdConsts cfg cs + 1000 * cs.length := by
+  rw [(pod_values_of_sums cfg cs hcfs hr hl hm hne).1]
+  have hq : ∀ c ∈ cs, ctrQuota stdConsts cfg c = max 1000 (c.lim * 100) := by
+    intro c hc
+    have := (container_values_standard cfg c hcfs hr).2.1
+    have hp := hl c hc
+    have : ¬ c.lim ≤ 0 := by omega
+    simp_all
+  clear hm
+  have key : (cs.map (·.lim)).sum * 100 ≤ (cs.map (ctrQuota stdConsts cfg)).sum ∧
+      (cs.map (ctrQuota stdConsts cfg)).sum ≤ (cs.map (·.lim)).sum * 100 + 1000 * cs.length ∧
+      1000 * (cs.length : Int) ≤ (cs.map (ctrQuota stdConsts cfg)).sum := by
+    clear hne
+    induction cs with
+    | nil => simp
+    | cons c cs ih =>
+      have ih' := ih (fun d hd => hl d (by simp [hd])) (fun d hd => hq d (by simp [hd]))
+      have hc := hq c (by simp)
+      have hpos := hl c (by simp)
+      simp only [List.map_cons, List.sum_cons, List.length_cons] at *
+      have hlen : ((cs.length + 1 : Nat) : Int) = (cs.length : Int) + 1 := by simp
+      rw [hlen]
+      omega
+  have hlen : 1 ≤ (cs.length : Int) := by
+    have : 0 < cs.length := List.length_pos_iff.mpr hne
+    omega
+  omega
+
 /-! ### 5. pods that are not best-effort are left untouched -/
 
 theorem non_be_untouched (k : Consts) (cfg : Cfg) (hasSpec : Bool) (cs : List Ctr) (c : Ctr) :
